@@ -28,6 +28,11 @@ META = dict(
 )
 
 
+def outside(tier):
+    # a start point outside the box is legal input: the first announced step starts from it (transformed), not from its projection
+    return loop.loop_tasks([dict(policy="DualNorm", cons=["ranged"], vars=["boxed"], x0_outside=True), dict(policy="Constant", cons=[], vars=["lower", "upper"], x0_outside=True)], 2)
+
+
 def observers(tier):
     K = 2 if tier == "quick" else 3
     return [dict(module="twin", fn="h_observers", shape=dict(K=K, policy=p, vars=["boxed"], cons=c), opts=dict(mulmode="uf", timeout_ms=20000)) for p, c in (("DualNorm", ["eq0"]), ("ObjectiveFilter", []), ("Constant", []))]
@@ -40,7 +45,7 @@ def tasks(tier):
         # without constraints the loop is cheap: go deeper (a filter veto needs an earlier accepted
         # step, so veto-then-accept sequences only exist from K=3 on)
         fails = [dict(c, step_failures=True) for c in combos if c.get("cons") != [] or c.get("vars")] + [dict(policy=p, cons=[], step_failures=True) for p in ("Constant", "DualNorm")]
-        return loop.loop_tasks(combos, 2) + loop.loop_tasks(fails, 2) + loop.loop_tasks([dict(policy=p, cons=[]) for p in pols], 4) + loop.loop_tasks([dict(policy="Constant", cons=[], step_failures=True)], 4) + observers(tier)
+        return loop.loop_tasks(combos, 2) + loop.loop_tasks(fails, 2) + loop.loop_tasks([dict(policy=p, cons=[]) for p in pols], 4) + loop.loop_tasks([dict(policy="Constant", cons=[], step_failures=True)], 4) + observers(tier) + outside(tier)
     combos = [dict(policy=p, cons=c) for p in pols for c in (["eq0"], ["ge"])] + [dict(policy="DualNorm", cons=["ranged"], vars=["lower"]), dict(policy="LagrangianFilter", cons=["le"], vars=["free"])]
     fails = [dict(c, step_failures=True) for c in combos]
-    return loop.loop_tasks(combos, 3) + loop.loop_tasks(fails, 2) + loop.loop_tasks([dict(policy=p, cons=[]) for p in pols], 4) + loop.loop_tasks([dict(policy=p, cons=[], step_failures=True) for p in pols], 3) + observers(tier)
+    return loop.loop_tasks(combos, 3) + loop.loop_tasks(fails, 2) + loop.loop_tasks([dict(policy=p, cons=[]) for p in pols], 4) + loop.loop_tasks([dict(policy=p, cons=[], step_failures=True) for p in pols], 3) + observers(tier) + outside(tier)
